@@ -107,10 +107,26 @@ def run(ctx: Ctx) -> None:
 
     # ---------------------------------------------------------------- R2.4
     ctx.rule("R2.4", "flags sit on the node they belong to (trailing return, vararg, calling convention)", minimum=5)
+    # does the trailing-type parser do the substitution itself, on the function object it is handed?
+    ttr = pm.fn("_parse_trailing_return_type")
+    tparams = [a.arg for a in ttr.args.args[1:]]
+    callee_stores = {}
+    for p_ in tparams:
+        rt = [s_ for s_ in walk_local(ttr) if isinstance(s_, ast.Assign) and any(norm(t) == f"{p_}.return_type" for t in s_.targets)]
+        fl = [s_ for s_ in walk_local(ttr) if isinstance(s_, ast.Assign) and any(norm(t) == f"{p_}.has_trailing_return" for t in s_.targets) and isinstance(s_.value, ast.Constant) and s_.value.value is True]
+        if rt:
+            callee_stores[p_] = (rt, fl)
+    for p_, (rt, fl) in callee_stores.items():
+        ctx.ob("R2.4", f"parser:CxxParser._parse_trailing_return_type|{p_}.return_type substituted with has_trailing_return", bool(fl),
+               msg=f"`{short(rt[0])}` replaces the return type by the trailing one without setting {p_}.has_trailing_return", node=rt[0], mod=mod)
     for fname, call in pm.call_sites("_parse_trailing_return_type"):
         cfg = pm.cfg(fname)
         n = node_containing(cfg, call)
         st = n.stmt if n is not None else None
+        if callee_stores and isinstance(st, ast.Expr) and st.value is call and call.args and tparams and tparams[0] in callee_stores:
+            # the callee stores type and flag on the object it is given: the pairing was decided there
+            ctx.ob("R2.4", f"parser:CxxParser.{fname}|trailing return #{_nth(pm.fn(fname), call)} substituted by the callee on `{short(call.args[0], 30)}`", True, node=call, mod=mod, nontrivial=False)
+            continue
         # result -> local -> X.return_type = local ; X.has_trailing_return = True in the same block
         var = st.targets[0].id if isinstance(st, ast.Assign) and isinstance(st.targets[0], ast.Name) else None
         block = _block_of(pm, st) if st is not None else []
